@@ -1,48 +1,29 @@
-from checks import hC03 as h
+from checks import hG as h
 from crosshair.core import deep_realize, realize
 from crosshair.tracers import NoTracing
-import time
+import importlib
 CFG = {}
-def d7(c0: int) -> bool:
+def prepare(cfg):
+    plan = importlib.import_module('checks.C04').plan('quick', 0)
+    c = [c for c in plan['families'][0]['jobs'] if c['label'] == 'py:lambda-builtin-param'][0]
+    h.CFG.clear(); h.CFG.update(c); h.prepare(h.CFG)
+def d1(i0: int) -> bool:
     """
-    pre: 0 <= c0 < 0x110000
+    pre: 0 <= i0 < 1
     post: _
     """
-    s = h.build(['<a k="v">t</a>', 0], (c0,))
-    return h.verbatim_ok(s)
-
-import traceback, collections, atexit
-from crosshair import statespace as SS
-_orig = SS.StateSpace.choose_possible
-CNT = collections.Counter()
-def _r(self, expr, *a, **k):
+    b = h.bind((i0, 0, 0, 0, 0, 0), (False,)*6)
+    e = h.run_engine(b)
+    import traceback
+    from vlib import refsem
+    ref = refsem.Ref(h.DEFAULT_MARKER, h.STATE['codes'], helpers={'rec': h.rec})
+    b2 = dict(b); b2.pop('__outs__'); b2.pop('__vals__')
+    try:
+        ref.render(h.CFG['prog'], refsem.RScope(b2), [])
+    except Exception:
+        with NoTracing():
+            print(traceback.format_exc()[-1500:])
+    r = h.run_ref(b)
     with NoTracing():
-        st = traceback.extract_stack()[-12:-1]
-        key = str(expr)[:80] + ' @ ' + ' < '.join('%s:%d' % (f.name, f.lineno) for f in reversed(st) if 'crosshair' in f.filename or 'chameleon' in f.filename or 'checks' in f.filename)[:400]
-        CNT[key] += 1
-    return _orig(self, expr, *a, **k)
-SS.StateSpace.choose_possible = _r
-_of = SS.StateSpace.find_model_value
-def _f(self, expr, *a, **k):
-    with NoTracing():
-        st = traceback.extract_stack()[-14:-1]
-        key = 'FMV ' + str(expr)[:80] + ' @ ' + ' < '.join('%s:%d' % (f.name, f.lineno) for f in reversed(st))[:600]
-        CNT[key] += 1
-    return _of(self, expr, *a, **k)
-SS.StateSpace.find_model_value = _f
-import os
-def dump():
-    with open('/tmp/dbg.log','a') as f:
-        for k, v in CNT.most_common(25): f.write('%d  %s\n' % (v, k))
-_oe = os._exit
-def _exit(c):
-    dump(); _oe(c)
-os._exit = _exit
-
-from crosshair.libimpl import relib as RL
-_oi = RL.ReUnhandled.__init__
-def _ni(self, *a):
-    with NoTracing():
-        CNT['UNHANDLED ' + repr(a)[:300]] += 1
-    _oi(self, *a)
-RL.ReUnhandled.__init__ = _ni
+        print('ENG', deep_realize(e)); print('REF', deep_realize(r[:3]))
+    return True
